@@ -119,6 +119,58 @@ def check_eval(ctx, label, reported, arms, decisions, rewards, preds, train_stat
     return True
 
 
+def check_neighbourhood_records(ctx, label, cfg, nbhd, sizes, arms, spec, tr, ti, bs, wit):
+    """independent recomputation of the per-row neighbourhood records of a Radius / KNearest simulator from the inputs:
+    the history a test row sees is the training rows plus (online) every earlier batch; neighbours are selected in exact
+    integer arithmetic (mon.oracles.nhood); per arm the record must be the statistics of exactly those rewards, or empty"""
+    from fractions import Fraction
+    from mon.oracles import nhood
+    metric = cfg["np"]["metric"]
+    X, d, r = spec["X"], spec["d"], spec["r"]
+    if len(nbhd) != len(ti) or len(sizes) != len(ti):
+        ctx.violation("%s: %d neighbourhood records / %d sizes for %d test rows" % (label, len(nbhd), len(sizes), len(ti)), wit,
+                      kind="nbhd_count")
+        return False
+    for j, row_index in enumerate(ti):
+        seen = list(tr) + (list(ti[:(j // bs) * bs]) if bs > 0 else [])
+        hist = [X[i] for i in seen]
+        if cfg["np"]["kind"] == "radius":
+            rad = Fraction(cfg["np"]["radius"])
+            key = rad * rad if metric == "euclidean" else rad
+            idx = nhood.radius_rows(metric, hist, X[row_index], key)
+        else:
+            cands, tie = nhood.knn_completions(metric, hist, X[row_index], cfg["np"]["k"])
+            if cands is None or tie:
+                ctx.count("nbhd_rows_with_knn_tie_not_judged")
+                if sizes[j] != cfg["np"]["k"]:
+                    ctx.violation("%s: test row %d: neighbourhood size %r, k = %d" % (label, j, sizes[j], cfg["np"]["k"]), wit, kind="nbhd_size")
+                    return False
+                continue
+            idx = cands[0]
+        ctx.ev()
+        ctx.count("nbhd_records_recomputed")
+        if sizes[j] != len(idx):
+            ctx.violation("%s: test row %d: reported neighbourhood size %r, exact recomputation %d" % (label, j, sizes[j], len(idx)), wit,
+                          kind="nbhd_size")
+            return False
+        rec = nbhd[j] or {}
+        for a in arms:
+            rw = [r[seen[i]] for i in idx if d[seen[i]] == a]
+            g = rec.get(a) or {}
+            if not rw:
+                if g and g.get("count", 0) != 0:
+                    ctx.violation("%s: test row %d arm %r: neighbourhood record %r but the arm has no neighbour" % (label, j, a, g), wit,
+                                  kind="nbhd_record")
+                    return False
+                continue
+            w = stats(rw)
+            if not g or any(not close(g[k], w[k]) for k in STATS):
+                ctx.violation("%s: test row %d arm %r: neighbourhood record %r, recomputation from the %d neighbours %r" % (
+                    label, j, a, g, len(idx), w), wit, kind="nbhd_record")
+                return False
+    return True
+
+
 def run_case(rs, ctx):
     absent = ctx.index % 3 == 0
     spec = simgen.gen_simulation(rs, n_rows=(20, 200) if ctx.index % 4 == 0 else (20, 70), absent_arm=absent)
@@ -179,6 +231,10 @@ def run_case(rs, ctx):
             return
         nn = cfg["np"]["kind"] in ("radius", "knn", "lsh")
         nbhd = list(sim.bandit_to_arm_to_stats_neighborhoods[name]) if nn and not p["is_quick"] else None
+        if nbhd is not None and cfg["np"]["kind"] in ("radius", "knn") and spec["X"] is not None:
+            if not check_neighbourhood_records(ctx, "%s (%s)" % (name, gen.cfg_sig(cfg)), cfg, nbhd,
+                                               list(sim.bandit_to_neighborhood_size[name]), arms, spec, tr, ti, bs, dict(wit, bandit=name)):
+                return
         mn, av, mx = sim.bandit_to_arm_to_stats_min[name], sim.bandit_to_arm_to_stats_avg[name], sim.bandit_to_arm_to_stats_max[name]
         label = "%s (%s)" % (name, gen.cfg_sig(cfg))
         w = dict(wit, bandit=name)
